@@ -43,6 +43,7 @@ def cases(tier, seed):
     out += [{"sub": "fermion", "i": i} for i in range(n)]
     out += [{"sub": "qubit", "i": i} for i in range(n)]
     out += [{"sub": "multiform", "i": i} for i in range(n)]
+    out += [{"sub": "multiform_wide", "i": i} for i in range(n // 2)]
     return out
 
 
@@ -406,6 +407,73 @@ def run_multiform(case, ctx):
     ctx.sample({"sub": "multiform", "n": n, "A_terms": len(ta), "B_terms": len(tb)})
 
 
+def run_multiform_wide(case, ctx):
+    """Array form on wide registers (20..70 qubits, sparse words): product, collapse and commutation against the symbolic algebra."""
+    from tangelo.toolboxes.operators import QubitOperator as TQ
+    from tangelo.toolboxes.operators.multiformoperator import MultiformOperator, do_commute
+    rng, pr, sd = case_rng(ctx.seed, "C16", "multiform_wide", case["i"])
+    n = pr.choice([20, 31, 32, 33, 34, 40, 63, 64, 65, 70])
+
+    def sparse_terms(k):
+        out = {}
+        for _ in range(k):
+            qs = sorted(pr.sample(range(n), pr.randint(1, 4)))
+            if pr.random() < 0.5:
+                qs = sorted(set(qs) | {pr.choice([0, 1, n - 1, n - 2])})
+            t = tuple((q, pr.choice("XYZ")) for q in qs)
+            out[t] = pr.uniform(-1, 1) if pr.random() < 0.7 else complex(pr.uniform(-1, 1), pr.uniform(-1, 1))
+        return out
+    ta, tb = sparse_terms(pr.randint(1, 4)), sparse_terms(pr.randint(1, 4))
+    if pr.random() < 0.5:
+        # words that agree everywhere except on the lowest-index qubits
+        base = list(ta)[0]
+        hi = tuple(x for x in base if x[0] >= 2)
+        ta[((0, "X"),) + hi] = 0.5
+        ta[((0, "Z"),) + hi] = -0.25
+        ta[((1, "Y"),) + hi] = 0.75
+    a, b = gen.to_qubit_operator(ta), gen.to_qubit_operator(tb)
+    ta, tb = gen.terms_of(a), gen.terms_of(b)
+    if not ta or not tb:
+        return
+    wit = {"n": n, "A": [[list(map(list, t)), c] for t, c in ta.items()], "B": [[list(map(list, t)), c] for t, c in tb.items()]}
+    ma, mb = MultiformOperator.from_qubitop(a, n), MultiformOperator.from_qubitop(b, n)
+    prod = ma * mb
+    sym = a * b
+    sym.compress(abs_tol=1e-12)
+    got = {t: c for t, c in prod.terms.items() if abs(c) > 1e-12}
+    exp = {t: c for t, c in sym.terms.items() if abs(c) > 1e-12}
+    ok = set(got) == set(exp) and all(abs(got[t] - exp[t]) < 1e-9 for t in exp)
+    ctx.check("multiform_product", ok, f"MultiformOperator product on {n} qubits differs from the symbolic product",
+              lambda: dict(wit, got=repr(got)[:1500], expected=repr(exp)[:1500]))
+    # collapse: duplicates plus words differing only on low / only on high qubits
+    words = np.zeros((pr.randint(2, 6), n), dtype=int)
+    for w in words:
+        for q in pr.sample(range(n), pr.randint(1, 4)):
+            w[q] = pr.randint(1, 3)
+    extra = words[[pr.randrange(len(words)) for _ in range(pr.randint(1, 4))]].copy()
+    for w in extra:
+        if pr.random() < 0.6:
+            q = pr.choice([0, 1, 2, n - 1])
+            w[q] = (w[q] + pr.randint(1, 3)) % 4      # a different word on one qubit only
+    allw = np.concatenate([words, extra], axis=0)
+    fac = np.array([complex(pr.uniform(-1, 1), pr.choice([0, pr.uniform(-1, 1)])) for _ in range(len(allw))])
+    uniq, ufac = MultiformOperator.collapse(allw.copy(), fac.copy())
+    ref = {}
+    for w, f in zip(allw, fac):
+        ref[tuple(int(x) for x in w)] = ref.get(tuple(int(x) for x in w), 0) + f
+    ref = {k: v for k, v in ref.items() if abs(v) > 0}
+    gotc = {tuple(int(x) for x in w): f for w, f in zip(uniq, ufac)}
+    okc = len(gotc) == len(uniq) and set(gotc) == set(ref) and all(abs(gotc[k] - ref[k]) < 1e-12 for k in ref)
+    ctx.check("multiform_collapse", okc, f"collapse() on {n}-qubit words does not sum exactly the duplicate Pauli words",
+              lambda: {"n": n, "n_words_in": len(allw), "n_words_out": len(uniq), "expected_out": len(ref)})
+    res = do_commute(ma, mb, term_resolved=True)
+    exp_res = [all(term_commutes(x, y) for y in tb) for x in ma.terms]
+    ctx.check("do_commute_term_resolved", list(map(bool, res)) == exp_res,
+              f"do_commute(term_resolved=True) on {n} qubits differs from the word-by-word rule", lambda: dict(wit, got=list(map(bool, res)), expected=exp_res))
+    ctx.tab("multiform_width", str(n))
+    ctx.nontrivial(("multiform_wide", n, case["i"]))
+
+
 def run_repo_tests(case, ctx):
     """The repository's own operator / ansatz tests as an additional workload for the operand-snapshot monitors."""
     from vlib.harness import run_repo_tests_under_monitors
@@ -422,4 +490,4 @@ def run_repo_tests(case, ctx):
 
 
 def run_case(case, ctx):
-    {"fermion": run_fermion, "qubit": run_qubit, "multiform": run_multiform, "repo_tests": run_repo_tests}[case["sub"]](case, ctx)
+    {"fermion": run_fermion, "qubit": run_qubit, "multiform": run_multiform, "multiform_wide": run_multiform_wide, "repo_tests": run_repo_tests}[case["sub"]](case, ctx)
